@@ -268,6 +268,16 @@ def handle (op : String) (j : Json) : Except String Json := do
   -- --- T11: `sorted(xs)` of ints
   | "t11_sorted" => pure (intsToJson (sortedInts (← listOfJson intOfJson (← field j "xs"))))
   -- --- end T11
+  -- --- T12: itertools.groupby (keys: x mod m, or the parity as a Bool)
+  | "t2_groupby" =>
+    let xs ← listOfJson intOfJson (← field j "xs")
+    let m ← intOfJson (← field j "m")
+    let gi := groupby (fun (x : Int) => Int.fmod x m) xs
+    let gb := groupby (fun (x : Int) => Int.fmod x 2 == 0) xs
+    pure (Json.mkObj [("int", Json.arr (gi.map (fun p => Json.arr #[intJ p.1, intsToJson p.2])).toArray),
+                      ("bool", Json.arr (gb.map (fun p => Json.arr #[Json.bool p.1, intsToJson p.2])).toArray),
+                      ("sorted", intsToJson (sortedInt xs))])
+  -- --- end T12
   | _ => throw s!"unknown prelude op {op}"
 
 end OQ.PY.Driver
